@@ -184,6 +184,126 @@ def translate(repo, rel, fname, consts):
     return out
 
 # ---------------------------------------------------------------------------------------------------------------
+# big-integer formulas -> WowSrp.MiniBig.BigExpr
+
+BTOK = re.compile(r"\s*([A-Za-z_][A-Za-z0-9_]*(?:::[A-Za-z_][A-Za-z0-9_]*)*|[()&*+%.,\-]|\S)")
+
+class PB:
+    """expr := term (('+'|'-') term)* ; term := unary (('*'|'%') unary)* ; unary := '&' unary | atom postfix* ;
+       atom := '(' expr ')' | path [ '(' args ')' ] ; postfix := '.' ident '(' args ')'"""
+    def __init__(self, s):
+        self.t = []
+        i = 0
+        while i < len(s):
+            m = BTOK.match(s, i)
+            if not m: break
+            self.t.append(m.group(1)); i = m.end()
+        self.i = 0
+    def peek(self): return self.t[self.i] if self.i < len(self.t) else None
+    def eat(self, x=None):
+        t = self.peek()
+        if t is None or (x is not None and t != x): raise Unsupported("expected %r, found %r" % (x, t))
+        self.i += 1; return t
+    def args(self):
+        out = []
+        if self.peek() == ")": return out
+        out.append(self.expr())
+        while self.peek() == ",":
+            self.eat()
+            if self.peek() == ")": break
+            out.append(self.expr())
+        return out
+    def expr(self):
+        a = self.term()
+        while self.peek() in ("+", "-"):
+            op = self.eat(); a = ("add" if op == "+" else "sub", a, self.term())
+        return a
+    def term(self):
+        a = self.unary()
+        while self.peek() in ("*", "%"):
+            op = self.eat(); a = ("mul" if op == "*" else "rem", a, self.unary())
+        return a
+    def unary(self):
+        if self.peek() == "&":
+            self.eat(); return self.unary()
+        if self.peek() == "(":
+            self.eat(); a = self.expr(); self.eat(")")
+        else:
+            p = self.eat()
+            if not re.fullmatch(r"[A-Za-z_][A-Za-z0-9_:]*", p): raise Unsupported("token " + p)
+            if self.peek() == "(":
+                self.eat(); ar = self.args(); self.eat(")"); a = ("call", p, ar)
+            else:
+                a = ("name", p)
+        while self.peek() == ".":
+            self.eat(); m = self.eat(); self.eat("("); ar = self.args(); self.eat(")")
+            a = ("method", a, m, ar)
+        return a
+
+def big_term(e, params, locs):
+    k = e[0]
+    if k == "name":
+        if e[1] in locs: return locs[e[1]]
+        raise Unsupported("bare name %s (not a big integer)" % e[1])
+    if k == "call":
+        if e[1] == "KValue::bigint" and not e[2]: return "BigExpr.k"
+        raise Unsupported("call " + e[1])
+    if k == "method":
+        recv, m, ar = e[1], e[2], e[3]
+        if m in ("as_bigint", "to_bigint") and not ar:
+            if recv[0] == "name" and recv[1] in params: return 'BigExpr.v "%s"' % recv[1]
+            if recv == ("call", "Generator::default", []): return "BigExpr.g"
+            if recv == ("call", "LargeSafePrime::default", []): return "BigExpr.n"
+            raise Unsupported("%s() of %r" % (m, recv))
+        if m == "modpow" and len(ar) == 2:
+            return "BigExpr.modpow (%s) (%s) (%s)" % (big_term(recv, params, locs), big_term(ar[0], params, locs), big_term(ar[1], params, locs))
+        raise Unsupported("method " + m)
+    if k in ("mul", "add", "sub", "rem"):
+        return "BigExpr.%s (%s) (%s)" % (k, big_term(e[1], params, locs), big_term(e[2], params, locs))
+    raise Unsupported(k)
+
+WRAPPERS = [(r"^PublicKey::try_from_bigint\((.*)\)$", "PublicKey::try_from_bigint"), (r"^PublicKey::client_try_from_bigint\((.*),\s*large_safe_prime\s*\)$", "PublicKey::client_try_from_bigint"),
+            (r"^SKey::from_le_bytes\((.*)\.to_padded_32_byte_array_le\(\)\)$", "SKey::from_le_bytes(to_padded_32_byte_array_le)"),
+            (r"^(.*)\.to_padded_32_byte_array_le\(\)$", "to_padded_32_byte_array_le"), (r"^(.*)\.into\(\)$", "into")]
+
+def formula(repo, rel, fname):
+    """returns (BigExpr term, wrapper name)"""
+    try:
+        text = gc.load(repo, rel)
+        m = re.search(r"fn\s+" + fname + r"\s*\(([^)]*)\)", text)
+        if not m: raise gc.Missing("fn %s not found in %s" % (fname, rel))
+        params = set(p.split(":")[0].strip() for p in m.group(1).split(",") if p.strip())
+        body = gc.fn_body(text, fname, rel).strip()[1:-1]
+    except gc.Missing as ex:
+        return "BigExpr.unsupported %s" % lean_str(str(ex)), "?"
+    body = re.sub(r"#\[[^\]]*\]", "", body)
+    stmts = [s.strip() for s in body.split(";")]
+    final = re.sub(r"\s+", " ", stmts[-1]).strip()
+    locs = {}
+    try:
+        for st in [s for s in stmts[:-1] if s]:
+            mm = re.fullmatch(r"let\s+(\w+)\s*=\s*(.*)", st, re.S)
+            if not mm: raise Unsupported("statement " + re.sub(r"\s+", " ", st)[:80])
+            name, rhs = mm.group(1), mm.group(2)
+            # a local holding a Sha1Hash wrapper (e.g. `let x = calculate_x(..).as_bigint()`) is opaque: it is a parameter of the formula
+            if re.match(r"\s*calculate_x\s*\(", rhs) and rhs.rstrip().endswith(".as_bigint()"):
+                locs[name] = 'BigExpr.v "%s"' % name; continue
+            p = PB(rhs); e = p.expr()
+            if p.peek() is not None: raise Unsupported("trailing tokens in " + rhs[:60])
+            locs[name] = big_term(e, params, locs)
+        wrap = "none"
+        core = re.sub(r"\s+", "", final)
+        for pat, nm in WRAPPERS:
+            mm = re.match(pat, core)
+            if mm:
+                core, wrap = mm.group(1), nm; break
+        p = PB(core); e = p.expr()
+        if p.peek() is not None: raise Unsupported("trailing tokens in " + core[:60])
+        return big_term(e, params, locs), wrap
+    except Unsupported as ex:
+        return "BigExpr.unsupported %s" % lean_str("%s: %s" % (fname, ex)), "?"
+
+# ---------------------------------------------------------------------------------------------------------------
 # SKey::as_equal_slice -> WowSrp.MiniScan.Prog
 
 def scan_nexpr(t, svar):
@@ -492,11 +612,16 @@ def main():
                                    ("wrathSmallHeaderParse", "src/wrath_header/mod.rs", r"impl\s+ServerHeader\s*\{", "from_small_array", wconsts),
                                    ("wrathLargeHeaderParse", "src/wrath_header/mod.rs", r"impl\s+ServerHeader\s*\{", "from_large_array", wconsts)):
         B.append("/-- `%s` in %s -/\ndef %s : ParseSpec := %s" % (fn, rel, name, parser(repo, rel, hdr, fn, cs)))
+    for name, rel, fn in (("passwordVerifierFormula", "src/srp_internal.rs", "calculate_password_verifier"), ("serverPublicKeyFormula", "src/srp_internal.rs", "calculate_server_public_key"),
+                          ("serverSFormula", "src/srp_internal.rs", "calculate_S"), ("clientPublicKeyFormula", "src/srp_internal_client.rs", "calculate_client_public_key"),
+                          ("clientSFormula", "src/srp_internal_client.rs", "calculate_client_S")):
+        term, wrap = formula(repo, rel, fn)
+        B.append("/-- the big-integer formula of `%s` in %s and the conversion applied to its result -/\ndef %s : BigExpr := %s\ndef %sWrap : String := %s" % (fn, rel, name, term, name, lean_str(wrap)))
     B.append("/-- `SKey::as_equal_slice` in src/key.rs -/\ndef asEqualSlice : Prog := %s" % strip_rule(repo))
     rs, rr = rc4_prga(repo)
     B.append("/-- `Rc4::pseudo_random_generation` in src/rc4.rs: statements and the index of the returned table entry -/\ndef rc4PrgaBody : List RStmt := %s\ndef rc4PrgaResult : RExpr := %s" % (rs, rr))
-    text = ("/- GENERATED by tools/gen_code.py from the Rust sources on every run. Do not edit. -/\nimport WowSrp.Model.MiniRust\nimport WowSrp.Model.MiniLayout\nimport WowSrp.Model.MiniRc4\nimport WowSrp.Model.MiniScan\n"
-            "namespace WowSrp.Gen.Code\nopen WowSrp.MiniRust WowSrp.MiniLayout WowSrp.MiniRc4 WowSrp.MiniScan\n\n" + "\n\n".join(L + B) + "\n\nend WowSrp.Gen.Code\n")
+    text = ("/- GENERATED by tools/gen_code.py from the Rust sources on every run. Do not edit. -/\nimport WowSrp.Model.MiniRust\nimport WowSrp.Model.MiniLayout\nimport WowSrp.Model.MiniRc4\nimport WowSrp.Model.MiniScan\nimport WowSrp.Model.MiniBig\n"
+            "namespace WowSrp.Gen.Code\nopen WowSrp.MiniRust WowSrp.MiniLayout WowSrp.MiniRc4 WowSrp.MiniScan WowSrp.MiniBig\n\n" + "\n\n".join(L + B) + "\n\nend WowSrp.Gen.Code\n")
     old = open(outp).read() if os.path.exists(outp) else None
     if old != text:
         os.makedirs(os.path.dirname(outp), exist_ok=True)
